@@ -454,7 +454,8 @@ func (t StaticMap[K, V, O]) IterKeyRange(ctx context.Context, start, stop K) (*O
 		return curr.compare(hi) >= 0
 	}
 
-	if stopF(lo) {
+	// |lo| is not valid when |start| is greater than every key in the tree
+	if !lo.Valid() || stopF(lo) {
 		return &OrderedTreeIter[K, V]{curr: nil}, nil
 	}
 
